@@ -18,6 +18,7 @@ Init == /\ store = [n \in Names |-> Undef]
 AllActs ==
        {A("Define", n, NoName, v, 0, mu, TRUE) : n \in Names, v \in LitPool, mu \in BOOLEAN}
   \cup {A("DefineFromVar", n, m, Undef, 0, mu, TRUE) : n \in Names, m \in Names, mu \in BOOLEAN}
+  \cup {A("DefineFromVarAnnot", n, m, Undef, i, mu, TRUE) : n \in Names, m \in Names, mu \in BOOLEAN, i \in 1..3}
   \cup {A("Assign", n, NoName, v, 0, FALSE, TRUE) : n \in Names, v \in {Sc(6), Mat(3, 4)}}
   \cup {A("AssignFromVar", n, m, Undef, 0, FALSE, TRUE) : n \in Names, m \in Names}
   \cup {A("IndexAssign", n, NoName, Undef, i, FALSE, TRUE) : n \in Names, i \in {1, 3}}
@@ -32,7 +33,7 @@ Alphabet == {a \in AllActs : a.a \in ActKinds}
 
 (* statements that make no sense syntactically or would leave the bounded value pool *)
 Sensible(a) ==
-  /\ a.a \in {"DefineFromVar", "AssignFromVar", "Destructure", "DestructureTooMany", "DestructureVar"} => a.n # a.m
+  /\ a.a \in {"DefineFromVar", "DefineFromVarAnnot", "AssignFromVar", "Destructure", "DestructureTooMany", "DestructureVar"} => a.n # a.m
   /\ a.a = "DestructureVar" => a.k \notin {a.n, a.m}
   /\ (a.a = "OpAssign" /\ Effect(store, mut, a).ok) => \A q \in 1..Len(store[a.n].d) : store[a.n].d[q] < MaxScalar
   /\ (a.a = "OpAssignVar" /\ Effect(store, mut, a).ok) =>
